@@ -505,6 +505,15 @@ class Interp:
                 except ValueError:
                     if s in self.const_params:
                         return Const(self.const_params[s])     # a const generic instantiated by the container model
+                    # mode flags are followed (`const SHARED: bool`, `raw_acquire::<EXCLUSIVE>`); integer constants stay
+                    # symbolic on purpose: a threshold such as `MAX_BACKOFFS` must not hide the branch behind it from a
+                    # bounded exploration
+                    cs = (self.frame_subst.get(fid) or {}).get(("#const", s))
+                    if isinstance(cs, bool):
+                        return Const(cs)                       # a const generic argument of the inlined callee
+                    nc = self.F.consts.get(s)
+                    if isinstance(nc, bool):
+                        return Const(nc)                       # a named constant item (evaluated by the driver)
                     return Const(s)
             if t["k"] == "tuple" and not t["elems"]:
                 return UNIT
@@ -618,6 +627,8 @@ class Interp:
             a = rv["agg"]
             if a == "adt":
                 v = Agg("adt", rv["path"], rv["variant"], ops)
+                if rv["path"] == "key::ThreadKey":
+                    self.emit(st, {"k": "KEY_BUILT"}, fn, self._cur_line)
                 ht = self.holdtypes.get(rv["path"])
                 if ht is not None:
                     self.on_hold_built(st, v, ht, fn, rv)
@@ -771,6 +782,29 @@ class Interp:
                 self.optype[rid] = m["locals"][i]["ty"]
                 args.append(Op(rid))
                 self.seed_arg(st, loc, m["locals"][i]["ty"])
+            # a by-value argument that is a crate-local enum (`TryLockPoisonableError`): what it owns depends on the variant,
+            # so the function is analysed once per variant, each with that variant's holds seeded
+            starts = [st]
+            for i in range(1, m["arg_count"] + 1):
+                t = m["locals"][i]["ty"]
+                a = self.F.adts.get(t["path"]) if t["k"] == "adt" and t.get("local") else None
+                if not a or a["kind"] != "Enum" or not (1 < len(a["variants"]) <= 4):
+                    continue
+                nxt = []
+                for s0 in starts:
+                    for k, var in enumerate(a["variants"]):
+                        s1 = s0.fork()
+                        s1.facts["a%d" % i] = ("variant", k)
+                        for j, fld in enumerate(var["fields"]):
+                            self.seed_arg(s1, self.add_proj(("O", "a%d" % i, ()), j),
+                                          ty_subst(fld["ty"], a["generics"], t.get("args", [])), 1)
+                        nxt.append(s1)
+                starts = nxt
+            if len(starts) > 1:
+                outs = []
+                for s0 in starts:
+                    outs += self.run_fn(fn, list(args), s0, 0)
+                return [Path(k, v, s, note) for (k, v, s, note) in outs]
         outs = self.run_fn(fn, args, st, 0)
         return [Path(k, v, s, note) for (k, v, s, note) in outs]
 
@@ -996,7 +1030,10 @@ class Interp:
         tf = st.fresh("t")
         st.mem[(tf, 0)] = v
         outs = []
+        self.emit(st, {"k": "DROP_IMPL", "adt": a["path"], "phase": "begin"}, dfn, None)
         for kind, _val, s2, note in self.run_fn(dfn, [Ref(("L", tf, 0, ()))], st, depth + 1):
+            if kind in ("ret", "unwind"):
+                self.emit(s2, {"k": "DROP_IMPL", "adt": a["path"], "phase": "end"}, dfn, None)
             if kind == "ret":
                 outs.append(("ok", s2, s2.mem.get((tf, 0), v)))
             elif kind == "unwind":
@@ -1245,7 +1282,31 @@ class Interp:
                 a = ce["args"][g["index"]]
                 if a.get("k") not in ("region", "const") and not (a.get("k") == "param" and a.get("name") == g["name"]):
                     sub[(g["name"], g["index"])] = a
+            elif g.get("kind") == "const" and g["index"] < len(ce["args"]):
+                a = ce["args"][g["index"]]
+                v = self._const_arg_value(a.get("s")) if a.get("k") == "const" else None
+                if v is not None:
+                    sub[("#const", g["name"])] = v
         return sub or None
+
+    def _const_arg_value(self, s):
+        """value of a const generic argument as the driver prints it (`false`, `3`, `3_usize`, a named constant, or the
+        caller's own const parameter)"""
+        if s is None:
+            return None
+        if s in ("true", "false"):
+            return s == "true"
+        try:
+            return int(s.split("_")[0])
+        except ValueError:
+            pass
+        s = s.strip("{} ")
+        if s in self.F.consts:
+            return self.F.consts[s]
+        cur = (self.frame_subst.get(self.cur_fid) or {}).get(("#const", s))
+        if cur is not None:
+            return cur
+        return self.const_params.get(s)
 
     def resolve_local_impl(self, trait, name, targs):
         """The crate-local impl method selected by a trait-method path whose Self type (and trait arguments) name ADTs."""
@@ -1549,7 +1610,7 @@ def m_mem_drop(I, st, fn, ce, args, line, depth, dest_ty, may_unwind):
 
 
 def m_mem_forget(I, st, fn, ce, args, line, depth, dest_ty, may_unwind):
-    I.emit(st, {"k": "FORGET", "val": args[0]}, fn, line)
+    I.emit(st, {"k": "FORGET", "val": args[0], "ty": _first_targ(ce)}, fn, line)
     return [("ret", UNIT, st)]
 
 
@@ -1734,9 +1795,16 @@ def m_opt_unwrap_or_else(I, st, fn, ce, args, line, depth, dest_ty, may_unwind):
     return out
 
 
+def _first_targ(ce):
+    for a in ce.get("args", []) or []:
+        if isinstance(a, dict) and a.get("k") not in ("region", "const"):
+            return a
+    return None
+
+
 def m_manually_drop_new(I, st, fn, ce, args, line, depth, dest_ty, may_unwind):
     # the wrapped value will never be dropped implicitly: for ownership purposes this is mem::forget that keeps the value readable
-    I.emit(st, {"k": "FORGET", "val": args[0], "via": "ManuallyDrop::new"}, fn, line)
+    I.emit(st, {"k": "FORGET", "val": args[0], "via": "ManuallyDrop::new", "ty": _first_targ(ce)}, fn, line)
     return [("ret", Agg("adt", "std::mem::ManuallyDrop", 0, [args[0]]), st)]
 
 
@@ -1909,6 +1977,22 @@ def m_try_branch(I, st, fn, ce, args, line, depth, dest_ty, may_unwind):
     raise Undecided("Try::branch on %r" % (v,))
 
 
+def m_opt_try_branch(I, st, fn, ce, args, line, depth, dest_ty, may_unwind):
+    """`opt?`: Some(v) -> Continue(v), None -> Break(None)"""
+    CF = "std::ops::ControlFlow"
+    out = []
+    for k, payload, s2 in I.variants_of(st, args[0]):
+        if k == 1:
+            out.append(("ret", Agg("adt", CF, 0, [payload]), s2))
+        else:
+            out.append(("ret", Agg("adt", CF, 1, [_opt(0, [])]), s2))
+    return out
+
+
+def m_opt_from_residual(I, st, fn, ce, args, line, depth, dest_ty, may_unwind):
+    return [("ret", _opt(0, []), st)]
+
+
 def m_from_residual(I, st, fn, ce, args, line, depth, dest_ty, may_unwind):
     v = args[0]
     inner = v[4][0] if v[0] == "agg" and v[4] else v
@@ -2027,6 +2111,8 @@ MODELS = {
     "std::cell::LazyCell::<T, F>::force": m_lazy_deref,
     "<std::sync::LazyLock<T, F> as std::ops::Deref>::deref": m_lazy_deref,
     "<std::result::Result<T, E> as std::ops::Try>::branch": m_try_branch,
+    "<std::option::Option<T> as std::ops::Try>::branch": m_opt_try_branch,
+    "<std::option::Option<T> as std::ops::FromResidual<std::option::Option<std::convert::Infallible>>>::from_residual": m_opt_from_residual,
     "<std::result::Result<T, F> as std::ops::FromResidual<std::result::Result<std::convert::Infallible, E>>>::from_residual": m_from_residual,
     "std::cell::Cell::<T>::new": m_stdcell_new,
     "std::cell::Cell::<T>::get": m_stdcell_get,
